@@ -4,7 +4,7 @@ from collections import Counter
 
 import numpy as onp
 
-RULE = ("(a) synthetic PPOResults: ActorCritic networks of depth 1-4, width 1-128, the four activations, with randomly perturbed parameters (non-zero "
+RULE = ("(a) synthetic PPOResults (every second one followed in the same process by a sibling with identical layer sizes and another activation): ActorCritic networks of depth 1-4, width 1-128, the four activations, with randomly perturbed parameters (non-zero "
         "biases and log_std), random observation-normalisation statistics (or none) and squash/clip action scaling with different bounds per action "
         "dimension; (b) real ppo.train results with tiny budgets on a scripted environment (normalisation on/off, squash on/off), whose log_std has "
         "drifted from 0; for 40 observations per result, in range and up to 1e4x outside the training range (clip active), "
@@ -80,7 +80,7 @@ def make_obs(rnd, nrng, mean, std, n):
     return out
 
 
-def synthetic_case(rnd, nrng, stats):
+def synthetic_case(rnd, nrng, stats, force=None):
     import jax
     import jax.numpy as jnp
     import optax
@@ -94,6 +94,10 @@ def synthetic_case(rnd, nrng, stats):
     width = rnd.choice([1, 2, 7, 16, 64, 128])
     act = rnd.choice(["tanh", "relu", "gelu", "softplus"])
     obs_dim, act_dim = rnd.randint(1, 6), rnd.randint(1, 3)
+    if force is not None:
+        # sibling result: identical layer sizes, another activation, evaluated in the same process right after the first one
+        depth, width, obs_dim, act_dim = force["depth"], force["width"], force["obs_dim"], force["act_dim"]
+        act = rnd.choice([a for a in ["tanh", "relu", "gelu", "softplus"] if a != force["activation"]])
     squash = rnd.random() < 0.5
     normalize = rnd.random() < 0.7
     cfg = ppo.Config(NUM_HIDDEN_LAYERS=depth, NUM_HIDDEN_UNITS=width, HIDDEN_ACTIVATION=act, SQUASH=squash, NORMALIZE_ENV=normalize, NUM_ENVS=3)
@@ -169,11 +173,24 @@ def run_case(case):
     rnd = random.Random(case["spec_seed"])
     nrng = onp.random.default_rng(case["spec_seed"])
     items, counters, samples = [], Counter(), []
-    jobs = [("synthetic", None)] * case.get("n_syn", 6) + [("trained", case["spec_seed"] * 13 + i) for i in range(case.get("n_train", 0))]
+    jobs = []
+    for i in range(case.get("n_syn", 6)):
+        jobs.append(("synthetic", None))
+        if i % 2 == 0:
+            jobs.append(("sibling", None))
+    jobs += [("trained", case["spec_seed"] * 13 + i) for i in range(case.get("n_train", 0))]
+    last_desc = None
     for t, (kind, seed) in enumerate(jobs):
         st = Counter()
         try:
-            V, nontriv, desc = synthetic_case(rnd, nrng, st) if kind == "synthetic" else trained_case(rnd, nrng, st, seed)
+            if kind == "synthetic":
+                V, nontriv, desc = synthetic_case(rnd, nrng, st)
+                last_desc = desc
+            elif kind == "sibling":
+                V, nontriv, desc = synthetic_case(rnd, nrng, st, force=last_desc)
+                desc = dict(desc, sibling_of_previous=True)
+            else:
+                V, nontriv, desc = trained_case(rnd, nrng, st, seed)
         except Exception as ex:
             import traceback
 
